@@ -1092,8 +1092,11 @@ impl<T: Serialize + for<'de> Deserialize<'de> + Clone + PartialEq + Send + Sync 
         mac.update(&entry.transaction_id.to_le_bytes());
         mac.update(&entry.timestamp.to_le_bytes());
         mac.update(&[entry.transaction_type as u8]);
+        // Frame the variable-length fields so that no two entries share a MAC input
+        mac.update(&(entry.key.len() as u64).to_le_bytes());
         mac.update(entry.key.as_bytes());
 
+        mac.update(&[entry.value.is_some() as u8]);
         if let Some(ref value) = entry.value {
             mac.update(value);
         }
